@@ -45,6 +45,44 @@ def ev_delay(ev):
     return 0
 
 
+def via_yaml(payload):
+    """one history out of eight (decided by a checksum of the case, so that a replay does the same), statecharts
+    without an editing past"""
+    import zlib
+    if 'via_yaml' in payload:
+        return bool(payload['via_yaml'])
+    if payload.get('history') or payload.get('construction_spec'):
+        return False
+    for ch in payload.get('charts') or []:
+        for t in ch.get('transitions', []):
+            ev = t.get('event')
+            if ev is not None and (ev == '' or ev != ev.strip()):
+                # (an event name that is empty or has surrounding blanks does not survive the YAML format: known
+                #  finding K4 of C11)
+                return False
+    return zlib.crc32(json.dumps([payload.get('charts'), payload.get('ops')], sort_keys=True, default=str).encode()) % 8 == 0
+
+
+def through_yaml(sc):
+    """export_to_yaml then import_from_yaml; the transitions of the result are registered again in the order of the
+    original (the order in which transitions are declared carries no meaning, C07; the harness numbers them by it)"""
+    from sismic.io import export_to_yaml, import_from_yaml
+    sc2 = import_from_yaml(export_to_yaml(sc))
+    pool = list(sc2.transitions)
+    for t in pool:
+        sc2.remove_transition(t)
+    for t in sc.transitions:
+        m = next((u for u in pool if u == t), None)
+        if m is None:
+            # (not found: kept as it came back, at the end; what differs shows in the run)
+            continue
+        pool = [u for u in pool if u is not m]
+        sc2.add_transition(m)
+    for u in pool:
+        sc2.add_transition(u)
+    return sc2
+
+
 class InterpProp(Prop):
     n_ops = 30
     with_contracts = 0.0
@@ -125,9 +163,17 @@ class InterpProp(Prop):
             charts = list(case.aux['charts'])
         else:
             charts = [copy.deepcopy(sc) for sc in case.aux['charts']]
+        case.aux.pop('oracle_charts', None)
+        if self.via_yaml and via_yaml(case.payload):
+            # the statechart reaches the interpreter as a YAML document (exported, imported again): the same
+            # statechart (C11) — the oracles go on speaking about the statechart as it was declared
+            case.aux['oracle_charts'] = [copy.deepcopy(sc) for sc in case.aux['charts']]
+            charts = [through_yaml(sc) for sc in charts]
         case.aux['run_charts'] = charts
         obs, world = impl.run_case(case.payload, charts)
         return obs
+
+    via_yaml = True
 
     # ---- what is compared between model and implementation ------------------------------------
     # Only the observables the property's theorems speak about: a change to the code that leaves
@@ -217,7 +263,7 @@ class InterpProp(Prop):
                 res.violations.append('while the statechart was edited through the API (a valid edit of a valid statechart): %s'
                                       % c0._vp_edit_error)
                 return
-        sc = case.aux['run_charts'][0]
+        sc = (case.aux.get('oracle_charts') or case.aux['run_charts'])[0]
         trans = list(sc.transitions)
         gh = Ghost()
         prev_world = None
